@@ -1,13 +1,46 @@
 (* C15 — property theorems.  Only statements, each closed by [exact], each followed by
    Print Assumptions. *)
-From Coq Require Import ZArith List Bool Sorted.
-From Centro Require Import Base.GraphC15 Model.LabelGraph Spec.LabelGraph Proofs.ColorC15.
+From Coq Require Import ZArith NArith List Bool Sorted.
+From Centro Require Import Base.GraphC15 Model.LabelGraph Spec.LabelGraph
+  Proofs.ColorC15 Proofs.DfsC15 Proofs.EulerC15.
 Import ListNotations.
-Open Scope Z_scope.
 
-(* the first-free-colour rule never returns a colour of a neighbour *)
+(* ---- all_connected_components / _all_connected_components (Full, including termination) ----
+   For ANY per-vertex edge counts and neighbour arrays (cnt v = counts[v], nbr v k =
+   j[indexes[v]+k]) that are symmetric and stay inside 0..n-1, the explicit-stack loop with the
+   fuel the model computes returns; every vertex is labelled; two vertices carry the same label
+   exactly when they are connected; the labels are 0..c-1 and every one of them is used
+   (self-loops, duplicates and isolated vertices included: they are just entries of nbr). *)
+Theorem C15_dfs_partition : forall cnt nbr n fuel,
+  (forall u v, edge cnt nbr u v -> edge cnt nbr v u) ->
+  (forall u v, (u < N.of_nat n)%N -> edge cnt nbr u v -> (v < N.of_nat n)%N) ->
+  (sumw (fun v => 2 * cnt v + 1) (nseq 0 n) + 1 <= N.pos fuel)%N ->
+  exists lb vi c, dfs_all cnt nbr fuel n = Some (lb, vi, c) /\
+    (forall v, (v < N.of_nat n)%N -> exists k, mget lb v = Some k /\ (k < c)%N) /\
+    (forall u w ku kw, mget lb u = Some ku -> mget lb w = Some kw -> (ku = kw <-> conn cnt nbr u w)) /\
+    (forall k, (k < c)%N -> exists v, (v < N.of_nat n)%N /\ mget lb v = Some k).
+Proof. exact dfs_all_spec. Qed.
+Print Assumptions C15_dfs_partition.
+
+Open Scope Z_scope.
+(* ---- color_labels: the first-free-colour rule never returns a colour of a neighbour ---- *)
 Theorem C15_first_free_spec : forall colors k,
   StronglySorted Z.lt colors -> (forall c, In c colors -> k <= c) ->
   ~ In (first_free k colors) colors /\ k <= first_free k colors.
 Proof. exact first_free_spec. Qed.
 Print Assumptions C15_first_free_spec.
+
+(* ---- euler_number = 8-components - holes: Finite (exhaustive, bound in the statement) ---- *)
+Theorem C15_euler_is_components_minus_holes_3x3 : forall h w im l,
+  (1 <= h <= 3)%nat -> (1 <= w <= 3)%nat -> length im = h ->
+  Forall (fun r => length r = w /\ Forall (fun v => In v [0;1;2]) r) im -> In l [1;2] ->
+  euler4 im l = 4 * euler_spec im l.
+Proof. exact euler_components_minus_holes_3x3. Qed.
+Print Assumptions C15_euler_is_components_minus_holes_3x3.
+
+Theorem C15_euler_is_components_minus_holes_binary : forall h w im l,
+  In (h, w) shapes4 -> length im = h ->
+  Forall (fun r => length r = w /\ Forall (fun v => In v [0;1]) r) im -> In l [1;2] ->
+  euler4 im l = 4 * euler_spec im l.
+Proof. exact euler_components_minus_holes_4x4. Qed.
+Print Assumptions C15_euler_is_components_minus_holes_binary.
